@@ -29,7 +29,7 @@ func (runInfo *runInfoStruct) funcExpr() {
 		}
 
 		// run function statements
-		runInfo.runSingleStmt()
+		runInfo.runStmtRecover()
 		if len(runInfo.defers) > 0 {
 			runInfo.runDefers()
 		}
